@@ -7,6 +7,11 @@ Mutual exclusion of the backend lock is assumed (stubs/async_backend.py Lock); F
 
 
 def register(R):
+    _register(R)
+    register_async_tcp_client_send(R)
+
+
+def _register(R):
     R.module("easynetwork/lowlevel/api_async/transports/abc.py")
     R.contract(
         "AsyncStreamWriteTransport.send_all_from_iterable",
@@ -81,4 +86,32 @@ def register(R):
         env={"rely_havoc": [other, gs], "rely_inv": [f"implies({gs}, {other})", f"implies({lock}, not {other})"],
              "call_hints": {"send_packet": [("the-write-happened-while-the-send-lock-was-held", lock)]}},
         tags="C12",
+    )
+
+
+def register_async_tcp_client_send(R):
+    """AsyncTCPNetworkClient.send_packet (C12 C04): the endpoint write happens under the client's send lock, which is released on
+    every exit; the bytes written are the packet's chunks, once, in order."""
+    R.module("easynetwork/clients/async_tcp.py")
+    lock, other = "self.__send_lock.held_by_me", "self.__send_lock.held_by_other"
+    g = "self.__endpoint._AsyncStreamEndpoint__send_guard._ResourceGuard__held"
+    R.shape("AsyncTCPNetworkClientSend", cls="AsyncTCPNetworkClient",
+            fields={"__backend": "AsyncBackend", "__endpoint": "AsyncStreamEndpointS", "__send_lock": "LockModel"},
+            invariant=[("lock-free-at-entry", f"not {lock}"), ("guard-held-only-under-the-lock", f"implies({g}, {other})")])
+    ch = ("(fn('S_chunks', 'bytesseq', packet) if isnone(self.__endpoint._AsyncStreamEndpoint__sender.producer._StreamDataProducer__protocol._StreamProtocol__converter) "
+          "else fn('S_chunks', 'bytesseq', fn('K_dto', 'obj', packet)))")
+    R.contract(
+        "AsyncTCPNetworkClient.send_packet", self_shape="AsyncTCPNetworkClientSend",
+        params={"packet": "obj"},
+        ensures=[("packet-bytes-written-once-in-order", f"ghost.WIRE == old(ghost.WIRE) + flat({ch})", "C04 C12"),
+                 ("lock-and-guard-released", f"not {lock} and not {g}", "C12")],
+        raises={
+            "BusyResourceError": [("every-synchronised-call-succeeds: the guard is never found busy under the lock", "False", "C12")],
+            "BaseException": [("lock-released-on-every-exit", f"not {lock}", "C12"), ("only-a-prefix", "len(ghost.WIRE) >= len(old(ghost.WIRE))", "C04")],
+        },
+        modifies=["ghost.WIRE", lock, other, g, "ghost.locks_held"],
+        env={"rely_havoc": [other, g], "rely_inv": [f"implies({g}, {other})", f"implies({lock}, not {other})"],
+             "exc_universe": ["ClientClosedError", "ssl.SSLEOFError", "ssl.SSLError"],
+             "call_hints": {"send_packet": [("the-write-happened-while-the-send-lock-was-held", lock)]}},
+        tags="C12 C04",
     )
